@@ -396,7 +396,16 @@ where
 
         // Return error if versions don't match
         if self.protocol_version != packet_version {
-            return vec![GenericEvent::NotifyError(MqttError::VersionMismatch)];
+            let packet_id = match &packet {
+                GenericPacket::V3_1_1Publish(p) => p.packet_id(),
+                GenericPacket::V5_0Publish(p) => p.packet_id(),
+                GenericPacket::V3_1_1Subscribe(p) => Some(p.packet_id()),
+                GenericPacket::V5_0Subscribe(p) => Some(p.packet_id()),
+                GenericPacket::V3_1_1Unsubscribe(p) => Some(p.packet_id()),
+                GenericPacket::V5_0Unsubscribe(p) => Some(p.packet_id()),
+                _ => None,
+            };
+            return self.refuse_send(MqttError::VersionMismatch, packet_id);
         }
 
         match packet {
@@ -447,28 +456,28 @@ where
                 if role_id == client_id || role_id == any_id {
                     self.process_send_v3_1_1_subscribe(p)
                 } else {
-                    vec![GenericEvent::NotifyError(MqttError::PacketNotAllowedToSend)]
+                    self.refuse_send(MqttError::PacketNotAllowedToSend, Some(p.packet_id()))
                 }
             }
             GenericPacket::V5_0Subscribe(p) => {
                 if role_id == client_id || role_id == any_id {
                     self.process_send_v5_0_subscribe(p)
                 } else {
-                    vec![GenericEvent::NotifyError(MqttError::PacketNotAllowedToSend)]
+                    self.refuse_send(MqttError::PacketNotAllowedToSend, Some(p.packet_id()))
                 }
             }
             GenericPacket::V3_1_1Unsubscribe(p) => {
                 if role_id == client_id || role_id == any_id {
                     self.process_send_v3_1_1_unsubscribe(p)
                 } else {
-                    vec![GenericEvent::NotifyError(MqttError::PacketNotAllowedToSend)]
+                    self.refuse_send(MqttError::PacketNotAllowedToSend, Some(p.packet_id()))
                 }
             }
             GenericPacket::V5_0Unsubscribe(p) => {
                 if role_id == client_id || role_id == any_id {
                     self.process_send_v5_0_unsubscribe(p)
                 } else {
-                    vec![GenericEvent::NotifyError(MqttError::PacketNotAllowedToSend)]
+                    self.refuse_send(MqttError::PacketNotAllowedToSend, Some(p.packet_id()))
                 }
             }
             // SUBACK/UNSUBACK - Server/Any can send
@@ -1220,6 +1229,23 @@ where
     }
 
     // private
+
+    /// Refuse a send that would have started an exchange: report the error and release
+    /// (and announce) the packet identifier that was acquired for it, like every other refusal.
+    fn refuse_send(
+        &mut self,
+        error: MqttError,
+        packet_id: Option<PacketIdType>,
+    ) -> Vec<GenericEvent<PacketIdType>> {
+        let mut events = vec![GenericEvent::NotifyError(error)];
+        if let Some(packet_id) = packet_id {
+            if self.pid_man.is_used_id(packet_id) {
+                self.pid_man.release_id(packet_id);
+                events.push(GenericEvent::NotifyPacketIdReleased(packet_id));
+            }
+        }
+        events
+    }
 
     /// Initialize connection state based on client/server role
     ///
